@@ -100,7 +100,8 @@ def make_script(rng):
     for _ in range(rng.range(20, 90)):
         ops.append(("ctrl", rng.below(n), W.rand_cmd(rng, True)))
         if rng.chance(1, 12):
-            ops.append(("ctrl", rng.below(n), list(rng.choice([b"IND CLOCK 5\0", b"RSP POWERON 0\0", b"", b"CM", b"cmd POWERON\0", b"XCMD POWERON\0"]))))
+            ops.append(("ctrl", rng.below(n), list(rng.choice([b"IND CLOCK 5\0", b"RSP POWERON 0\0", b"", b"CM", b"cmd POWERON\0", b"XCMD POWERON\0",
+                                                          b"CMD\0", b"CMD \0", b"CMD", b"CMD  \0"]))))
         if rng.chance(1, 8):
             ops.append(("ctrl", rng.below(n), W.rejected_cmd(rng)))      # refused (out-of-range HSN, version, period ...): status < 0 and NO effect,
                                                                           # in particular on what an earlier accepted command of the same verb set up
